@@ -40,7 +40,20 @@ def gen_block(rng, depth, nstmts, ext):
                 k = rng.randrange(1000)
                 x = rng.randrange(NVARS)
                 out.append(('def', k, [('expr', [x])] + ([('expr', [rng.randrange(NVARS)])] if rng.random() < 0.4 else [])))
-                if rng.random() < 0.5:
+                r2 = rng.random()
+                if r2 < 0.3:
+                    # a function with a LOCAL of the same name as a module variable that is assigned on one branch only:
+                    # the call must not make the module variable look assigned
+                    out.pop()
+                    y = rng.randrange(NVARS)
+                    out.append(('def', k, [('assign', x, [])] + ([('expr', [y])] if y != x and rng.random() < 0.5 else [])))
+                    if rng.random() < 0.7:
+                        out.append(('if', [], [('assign', x, [])], []))
+                    else:
+                        out.append(('while', [], [('assign', x, [])]))
+                    out.append(('call', k))
+                    out.append(('expr', [x]))
+                elif r2 < 0.65:
                     out.append(('call', k))
                     out.append(('assign', rng.randrange(NVARS), []))
                     out.append(('call', k))
